@@ -217,7 +217,7 @@ Theorem C04_restriction_is_transpose (S : Scalar) (eps2 relax c23 eps_strong eps
 Proof. exact (restriction_is_transpose eps2 relax c23 eps_strong eps_trunc bs dt A junk junkf P R). Qed.
 Print Assumptions C04_restriction_is_transpose.
 
-(* Ruge-Stuben reads no uninitialised memory any more (/repo 8cfa879): the result does not depend on [junk] *)
+(* Ruge-Stuben reads no uninitialised memory any more (/repo 7bd138f): the result does not depend on [junk] *)
 Theorem C04_rs_transfer_junk_independent (S : Scalar) (eps_strong eps_trunc : S) dt (A : crs S) (j1 j2 : flags) :
   rs_transfer eps_strong eps_trunc dt A j1 = rs_transfer eps_strong eps_trunc dt A j2.
 Proof. exact (rs_transfer_junk_independent eps_strong eps_trunc dt A j1 j2). Qed.
@@ -251,7 +251,7 @@ Print Assumptions C04_pointwise_ids_travel_together.
 
 (* pointwise_matrix (A (x) I_b, b) is the scalar pattern of A with the norms of its entries
    (any S; rows of A sorted by column without duplicates).  pwm = the current code of
-   backend::pointwise_matrix (after /repo 2f75975), modelled in Aggregates.v. *)
+   backend::pointwise_matrix (after /repo 0e81e11), modelled in Aggregates.v. *)
 Theorem C04_pointwise_matrix_kronecker (S : Scalar) b (A : crs S) :
   0 < b -> forallb sorted_strict (rows A) = true -> pwm (kron_id b A) b = Some (mabs A).
 Proof. exact (pwm_kron b A). Qed.
@@ -261,7 +261,7 @@ Print Assumptions C04_pointwise_matrix_kronecker.
    (count*b, ids b*id+k, every scalar row's strong flags repeated b times) of the scalar problem.
    The scalar problem is mabs A -- the reduced matrix consists of block norms by design; as far
    as strength of connection goes mabs A and A agree whenever the diagonal is positive.
-   Holds for the current code (/repo 2f75975 pointwise_matrix, 384f188 pointwise_aggregates); it was
+   Holds for the current code (/repo 0e81e11 pointwise_matrix, 09e5c12 pointwise_aggregates); it was
    refuted for the code before those commits (former finding C04-pointwise-lifting, witness
    C04_pointwise_lifting_poisson below, then ids [-4,-3,0,1]). *)
 Theorem C04_pointwise_lifting (S : Scalar) eps2 b (A : crs S) junk :
@@ -357,7 +357,7 @@ Proof. exact (rs_interp_row_nth eps et dt A Sv cf P R i). Qed.
 Print Assumptions C04_rs_row_of_P.
 
 (* instance: the witness of the former finding C04-rs-truncation-tie (entry exactly on the truncation
-   threshold; fixed by /repo 8384831): the entry is dropped and the remaining weight rescaled *)
+   threshold; fixed by /repo 241833b): the entry is dropped and the remaining weight rescaled *)
 Theorem C04_rs_truncation_tie_rescaled :
   is_symmetric rs_tie_A = true /\
   match rs_cf (qc 1 4) rs_tie_A (no_junk rs_tie_A), rs_transfer (qc 1 4) (qc 1 2) true rs_tie_A (no_junk rs_tie_A) with
